@@ -126,6 +126,15 @@ TABLE.update({
     "C02h": ("C02", "/tmp/seed3/C02/h", "issuer key hash of the precertificate signing certificate (chain[1]) instead of its issuer", ["C09", "C02"]),
     "C14g": ("C14", "/tmp/seed3/C14/g", "SQLite Replace = SELECT + Go compare + unconditional UPDATE: two witness processes on one file both get 200 for inconsistent trees", ["C05", "C14"]),
     "C14h": ("C14", "/tmp/seed3/C14/h", "ETagBackend.Fetch reads exactly ContentLength bytes: a streamed (chunked) GET yields an empty body with the real ETag, the witness takes the record for size 0 and overwrites it", ["C05", "C14"]),
+    # round 4 (/tmp/seed4/<prop>/{i,j})
+    "C07i": ("C07", "/tmp/seed4/C07/i", "recompute-cache upserts the smaller leaf_index but keeps the old row's timestamp: needs duplicate leaves (cache lost between two submissions) and the tool run on the live, non-empty cache", ["C07"]),
+    "C07j": ("C07", "/tmp/seed4/C07/j", "recompute-cache wraps its whole run in one transaction: run in parallel with production for more than the 10 s busy timeout, cachePut of the running log fails (only logged) and an acknowledged entry is sequenced again on resubmission", ["C07"]),
+    "C13i": ("C13", "/tmp/seed4/C13/i", "key confinement checked with strings.HasPrefix(path, dir) without a separator: ../<dir>-backup/x escapes into a sibling whose name extends the directory's name", ["C13"]),
+    "C13j": ("C13", "/tmp/seed4/C13/j", "Fetch stats the file, then opens and reads exactly that many bytes: an overwrite of a mutable key with another length in between yields a truncated object or unexpected EOF", ["C13"]),
+    "C15i": ("C15", "/tmp/seed4/C15/i", "packages at or below the next entry return early after their hashes went into the overlay: a resent package with wrong entries followed by a correct one poisons the parent hash tile", ["C15"]),
+    "C15j": ("C15", "/tmp/seed4/C15/j", "parsed mirror checkpoint cached and not cleared on a failed Lock.Replace: after an ambiguous write (or an overlapping restart) a request at an older size rewinds the mirror checkpoint", ["C15"]),
+    "C20i": ("C20", "/tmp/seed4/C20/i", "health treats os.ErrNotExist of a mirror as 'not mirrored yet': a deleted right-edge tile (or a missing pending checkpoint) stays green", ["C20"]),
+    "C20j": ("C20", "/tmp/seed4/C20/j", "verifier keys cached per file path for the process lifetime: after witness.v0.json / mirror.v0.json is rewritten, a checkpoint cosigned only by the old key is still OK", ["C20"]),
 })
 
 
